@@ -52,6 +52,13 @@ theorem loop_query_direct :
     RelayerLoop.queryLhs = "ethLogs, err" ∧ RelayerLoop.collectOver = "ethLogs" ∧
     RelayerLoop.ethClientBinding = "ethClient, err := SetupWebsocketEthClient(sub.EthProvider)" := by decide
 
+/-- the submission is synchronous: `RelayToCosmos` calls `tx.BroadcastTx` itself and there is no `go` statement,
+    `select` or channel around it (also in the package functions it calls) — it returns only after the broadcast
+    has returned, so the cursor write that follows it in `Start` follows the node's answer. -/
+theorem relay_synchronous :
+    RelayerLoop.relayGoStmts = 0 ∧ RelayerLoop.relaySelects = 0 ∧ RelayerLoop.relayChanTypes = 0 ∧
+    RelayerLoop.relayBroadcastDirect = true := by decide
+
 /-- the arithmetic and the operands: `endingBlock = newHead.Number − trailingBlocks`, skipped when negative;
     a zero cursor is set to `endingBlock`; the query is `[lastProcessedBlock, endingBlock]`; the value written
     and assigned is `endingBlock + 1`. -/
